@@ -57,6 +57,7 @@ func rulesC04(c *Ctx) {
 	// ---- nil tests that cannot succeed ----
 	typedNilC04(c)
 	nilErrRule(c, "C04.nilerr")
+	revisitRule(c, "C04.revisit")
 	// ---- token ring ----
 	tokringC04(c)
 	// ---- rune ring ----
